@@ -33,7 +33,8 @@ LEVEL_NOTE = (
     "Trusted: CPython, vlib/eqv.py (structural equality for classes without __eq__), the masks in vlib/cemi_gen.py.  Judged: equality "
     "of source, destination (value and kind), TPCI (class and sequence number), payload, priority/repeat/system-broadcast/ack/confirm/"
     "hop-count/frame-format after the round trip; Ctrl1 bit 7 == (NPDU <= 15) and Ctrl2 bit 7 == (destination is a group address) read "
-    "from the produced octets; NPDU > 254 and hop count outside 0..7 must raise (class recorded, not judged; since xknx e78d597 "
+    "from the produced octets; NPDU > 254 and hop count outside 0..7 must raise - at construction, on assignment or in to_knx, also when "
+    "every flags field is assigned on an already built and once serialised frame - (class recorded, not judged; since xknx e78d597 "
     "GroupValueWrite/Response refuse over-long values already when created - counted - so the frame-level limit is exercised by replacing "
     "the value of a valid payload afterwards, as Data Secure replaces payloads).  Re-serialisation: allowed "
     "to differ = FT bit, reserved Ctrl1 bit 6 (DESIGN §7), reserved application bits.  Byte-exact APDU comparison is restricted to "
@@ -173,19 +174,36 @@ def _wire_fields(raw: bytes):
     return raw[h], raw[h + 1], raw[h + 6]
 
 
-def _judge_built(ctx, label, code, info, src, dst, tpci, payload, npdu, fl, hop, pname) -> None:
-    """One built frame: valid ones must round-trip; NPDU > 254 / bad hop count must be refused."""
+def _judge_built(ctx, label, code, info, src, dst, tpci, payload, npdu, fl, hop, pname, assign: bool = False) -> None:
+    """One built frame: valid ones must round-trip; NPDU > 254 / bad hop count must be refused.
+
+    `assign`: the frame is first built with default flags and serialised, then every flags field is ASSIGNED on the
+    existing object and the frame serialised again (a refusal may come at any of these steps - construction,
+    assignment or to_knx; whatever the code under test raises is caught and judged, never the harness's problem).
+    """
     prio, rep, sb, ack, con = fl
     ctx.ev()
-    flags = CEMIFlags(priority=prio, repeat_on_error=rep, system_broadcast=sb, acknowledge_request=ack,
-                      confirm_error=con, hop_count=hop)
-    data = CEMILData(flags=flags, src_addr=src, dst_addr=dst, tpci=tpci, payload=payload)
-    frame = CEMIFrame(code=code, info=CEMIInfo(info) if info else None, data=data)
     must_refuse = npdu > 254 or not 0 <= hop <= 7
     witness = {"dst_tpci": label, "code": code.name, "info": info, "src": src.raw, "dst": dst.raw, "tpci": repr(tpci),
                "payload_class": pname, "npdu_len": npdu, "priority": prio.name, "repeat": rep, "system_broadcast": sb,
-               "ack": ack, "confirm_error": con, "hop_count": hop}
+               "ack": ack, "confirm_error": con, "hop_count": hop, "flags_assigned_after_construction": assign}
+    flags = None
     try:
+        if assign:
+            flags = CEMIFlags()
+            data = CEMILData(flags=flags, src_addr=src, dst_addr=dst, tpci=tpci, payload=payload)
+            frame = CEMIFrame(code=code, info=CEMIInfo(info) if info else None, data=data)
+            if npdu <= 254:
+                frame.to_knx()
+            f2 = frame.data.flags
+            f2.priority, f2.repeat_on_error, f2.system_broadcast = prio, rep, sb
+            f2.acknowledge_request, f2.confirm_error, f2.hop_count = ack, con, hop
+            ctx.count("flags_assigned_after_construction")
+        else:
+            flags = CEMIFlags(priority=prio, repeat_on_error=rep, system_broadcast=sb, acknowledge_request=ack,
+                              confirm_error=con, hop_count=hop)
+            data = CEMILData(flags=flags, src_addr=src, dst_addr=dst, tpci=tpci, payload=payload)
+            frame = CEMIFrame(code=code, info=CEMIInfo(info) if info else None, data=data)
         raw = frame.to_knx()
     except Exception as exc:  # noqa: BLE001
         if must_refuse:
@@ -201,7 +219,8 @@ def _judge_built(ctx, label, code, info, src, dst, tpci, payload, npdu, fl, hop,
             ctx.violation("npdu-over-254-serialised", dict(witness, raw=raw[:40]),
                           f"a frame with NPDU length {npdu} (> 254) was serialised instead of refused")
         else:
-            ctx.violation("hop-count-out-of-range-serialised-" + ("negative" if hop < 0 else "above-7"), dict(witness, raw=raw),
+            ctx.violation("hop-count-out-of-range-serialised-" + ("negative" if hop < 0 else "above-7")
+                          + ("-when-assigned-after-construction" if assign else ""), dict(witness, raw=raw),
                           f"a frame with hop count {hop} was serialised instead of refused")
         return
     ctx.count("built_serialised")
@@ -259,7 +278,7 @@ def _judge_built(ctx, label, code, info, src, dst, tpci, payload, npdu, fl, hop,
             diffs.append("confirm")
         if f.hop_count != hop:
             diffs.append("hop-count")
-        if f.frame_format != flags.frame_format:
+        if f.frame_format != frame.data.flags.frame_format:
             diffs.append("frame-format")
         if (f.frame_type is CEMIFrameType.STANDARD) != std:
             ctx.count("parsed_frame_type_differs_from_wire")
@@ -343,6 +362,20 @@ def _built_frames(ctx) -> None:
                 payload = None if control else _gv_payload(npdu, rng)
                 _judge_built(ctx, label, rot(CODES), b"", rot(src_choices, 2), dst, mk(), payload, npdu, fl, hop,
                              "control" if control else type(payload).__name__)
+
+    # (7) flags fields assigned on an already built (and once serialised) frame, then serialised again:
+    #     out-of-range hop counts must still be refused, everything valid must still round-trip
+    for hop in hops_valid + hops_bad + [9, 10, 12, 32, 128, -2]:
+        for label, dst, mk in data_pairs[:: ctx.scale(4, 1)] + ctrl_pairs[:: ctx.scale(11, 3)]:
+            for fl in fsets[:: ctx.scale(5, 1)]:
+                k += 1
+                if not ctx.mine(k):
+                    continue
+                control = (label, dst, mk) in ctrl_pairs
+                npdu = 0 if control else rot((1, 2, 15, 16, 40))
+                payload = None if control else _gv_payload(npdu, rng)
+                _judge_built(ctx, label, rot(CODES), rot(infos, 1), rot(src_choices, 2), dst, mk(), payload, npdu, fl, hop,
+                             "control" if control else type(payload).__name__, assign=True)
 
     # (6) via the public path: Telegram -> CEMILData.init_from_telegram -> frame -> octets -> telegram
     for label, dst, mk in data_pairs + ctrl_pairs:
@@ -470,6 +503,7 @@ def run(ctx):
     )
     ctx.require("built_roundtrips", "wire_bits_checked", "refused_as_required", "reserialised_exact_table",
                 "reserialise_changed_allowed_bits", "reserialise_identical", "service_classes_instantiated", "telegram_roundtrips",
+                "flags_assigned_after_construction",
                 "variant_apdus", "service_instances")
     _built_frames(ctx)
     ctx.count("overlong_group_value_refused_at_creation_already", _gv_payload.refused_at_creation)
